@@ -407,6 +407,14 @@ fn main() {
     ints.retain(|n| *n >= i64::MIN as i128 && *n <= u64::MAX as i128);
     ints.sort();
     ints.dedup();
+    // histories of length two over the integers a remembered "last decoded value" could confuse (equal low 64 bits as
+    // signed / unsigned, neighbours of the range ends): appended in pair order, after the sorted lattice
+    {
+        let al: Vec<i128> = vec![-1, u64::MAX as i128, 0, i64::MAX as i128, i64::MAX as i128 + 1, 1 << 32, -(1 << 32), 1, u64::MAX as i128 - 1, i64::MIN as i128, 8_210_266_876_799, 8_210_266_876_800];
+        for i in pair_order(al.len()) {
+            ints.push(al[i]);
+        }
+    }
     let deltas: Vec<i128> = {
         let mut v = b_durs();
         v.extend([-500_000_000, -1, -NS - 1, -NS + 1, MAX_DELTA, -MAX_DELTA, 1_500_000_000, -1_500_000_000]);
@@ -460,6 +468,34 @@ fn main() {
                                 } else {
                                     acc.hit(JSON_RT);
                                 }
+                            }
+                        }
+                    }
+                    // a serialization that fails half-way (the sink is too small) must not leak into the next one
+                    {
+                        struct Tiny(usize);
+                        impl std::io::Write for Tiny {
+                            fn write(&mut self, b: &[u8]) -> std::io::Result<usize> {
+                                if b.len() > self.0 {
+                                    return Err(std::io::Error::new(std::io::ErrorKind::WriteZero, "full"));
+                                }
+                                self.0 -= b.len();
+                                Ok(b.len())
+                            }
+                            fn flush(&mut self) -> std::io::Result<()> {
+                                Ok(())
+                            }
+                        }
+                        let a = FixedOffset::east_opt(19_800).unwrap().from_utc_datetime(&mk_ndt(days_from_civil(2001, 7, 8), 2099, 26_490_000));
+                        let b = FixedOffset::east_opt(-3600).unwrap().from_utc_datetime(&mk_ndt(days_from_civil(1999, 12, 31), 86_399, 0));
+                        for cap in [0usize, 1, 5, 12, 20] {
+                            acc.transitions += 3;
+                            let r1 = guard(|| serde_json::to_writer(Tiny(cap), &a).is_err());
+                            let r2 = guard(|| bincode::serialize_into(Tiny(cap), &a).is_err());
+                            let after = guard(|| (serde_json::to_string(&b).ok(), bincode::serialize(&b).ok().and_then(|x| bincode::deserialize::<DateTime<FixedOffset>>(&x).ok())));
+                            let want = (Some("\"1999-12-31T22:59:59-01:00\"".to_string()), Some(b));
+                            if r1 != Ok(true) || r2 != Ok(true) || after != Ok(want.clone()) {
+                                acc.violation("DateTime:serialize-after-a-failed-serialization", format!("serializing {:?} into a sink of {} bytes, then {:?} normally", a, cap, b), format!("Err, Err, then {:?}", want), format!("{:?} {:?} {:?}", r1, r2, after));
                             }
                         }
                     }
